@@ -412,6 +412,7 @@ func init() {
 		e.objFields("FileRestorer", "restoreObject", []string{"Kind", "Name", "Decl", "Data"})
 		e.objFields("fileDecorator", "decorateScope", []string{"Outer", "Objects"})
 		e.objFields("FileRestorer", "restoreScope", []string{"Outer", "Objects"})
+		e.RNilFirst()
 		e.extrasGate("restoreObject")
 		e.extrasGate("restoreScope")
 		e.extrasDeferredOwnFile()
@@ -537,4 +538,38 @@ func (e *Env) RDecorateForeignDecl() {
 		return true
 	})
 	e.Run.Floor("R-EXTRAS", "conversions of declaring nodes in decorateObject", n, 2)
+}
+
+// RNilFirst (R-OBJ): the four object/scope converters return nil for a nil argument before they
+// touch it (every file's outermost scope has a nil Outer; an object's Decl can be nil).
+func (e *Env) RNilFirst() {
+	pkg := e.Prog.Pkg(load.PkgDecorator)
+	c := e.Sib.Ctx[load.PkgDecorator]
+	for _, sp := range [][2]string{{"fileDecorator", "decorateObject"}, {"fileDecorator", "decorateScope"}, {"FileRestorer", "restoreObject"}, {"FileRestorer", "restoreScope"}} {
+		fd := load.FuncDecl(pkg, sp[0], sp[1])
+		if fd == nil || fd.Body == nil || fd.Type.Params == nil || len(fd.Type.Params.List) == 0 || len(fd.Type.Params.List[0].Names) == 0 {
+			continue
+		}
+		p := fd.Type.Params.List[0].Names[0].Name
+		ok := false
+		for _, st := range fd.Body.List {
+			is, isIf := st.(*ast.IfStmt)
+			if !isIf || len(is.Body.List) == 0 {
+				continue
+			}
+			if _, isRet := is.Body.List[len(is.Body.List)-1].(*ast.ReturnStmt); !isRet {
+				continue
+			}
+			cond := c.ExprStr(is.Cond)
+			// the nil argument takes this branch (p == nil implies the condition), and the
+			// condition is a test, not a constant (something makes it false)
+			taken, d1 := unsatWith(p+" == nil", "!("+cond+")")
+			taut, d2 := unsatWith("!("+cond+")", "true")
+			if d1 && d2 && taken && !taut {
+				ok = true
+			}
+		}
+		e.Run.Check("R-OBJ", sp[1]+" returns nil for a nil argument", e.Prog.Pos(fd.Pos()), ok,
+			"no top-level `if "+p+" == nil { return nil … }`: the outermost scope of every file has a nil Outer and many objects a nil Decl — the converter dereferences nil (or registers a nil key)")
+	}
 }
